@@ -16,6 +16,7 @@ import (
 	"math"
 	"math/rand/v2"
 	"os"
+	"runtime"
 	"sort"
 	"strconv"
 	"strings"
@@ -624,7 +625,7 @@ func c18RunCall(out *zzverif.Out, c *c18Case, fix bool, realS *Sampler, r float3
 	}
 	raw := c18Toks(c.logits)
 	L := topK(c18Toks(c.logits), s.topK)
-	if !(sortPath && hasNaN) {
+	if !(sortPath && hasNaN) && n <= 5000 { // (the oracle's IsTopK check is quadratic)
 		shown := L
 		if sortPath && n > 12 {
 			shown = c18CanonTies(L)
@@ -776,7 +777,7 @@ func c18RunCall(out *zzverif.Out, c *c18Case, fix bool, realS *Sampler, r float3
 		case status == "":
 			impl = fmt.Sprintf("%s kt=%d", res.head, kt)
 		default:
-			impl = fmt.Sprintf("%s kt=%d kp=%s km=%s c=%s", res.head, kt, kp, km, status)
+			impl = fmt.Sprintf("%s kt=%d kp=%s km=%s c=%s h=%d", res.head, kt, kp, km, status, c18HashVals(stage.pv))
 		}
 		out.Case(op, impl)
 	}
@@ -813,11 +814,160 @@ func c18RunCall(out *zzverif.Out, c *c18Case, fix bool, realS *Sampler, r float3
 			out.Count("crafted_r_calls")
 			op := fmt.Sprintf("sample %d %d %s %d %s %s %s %s %s", fixFlag, preFlag, c18Bits(s.temperature), s.topK,
 				c18Bits(s.topP), c18Bits(s.minP), c18Bits(rr), tokList.String(), expTable)
-			out.Case(op, fmt.Sprintf("%s kt=%d kp=%s km=%s c=%s", res3.head, kt, kp, km, c18Status(baseFlags, cumF, rr)))
+			out.Case(op, fmt.Sprintf("%s kt=%d kp=%s km=%s c=%s h=%d", res3.head, kt, kp, km, c18Status(baseFlags, cumF, rr), c18HashVals(stage.pv)))
 			c18L2(out, c, &s, res3, line+fmt.Sprintf(" # call=%d on a fresh sampler, crafted r=%d/2^24", idx, k), stage)
 		}
 	}
 	return consumed, pre, res, stage
+}
+
+var c18HistSeq int
+
+func c18HashVals(vs []float32) uint32 {
+	h := uint32(2166136261)
+	for _, v := range vs {
+		b := math.Float32bits(v)
+		if v != v {
+			b = 0x7FC00000
+		}
+		h = (h ^ b) * 16777619
+	}
+	return h
+}
+
+func c18HashIds(ts []token) uint32 {
+	h := uint32(2166136261)
+	for _, t := range ts {
+		h = (h ^ uint32(t.id)) * 16777619
+	}
+	return h
+}
+
+// c18EnvRepro: reproducibility ACROSS ENVIRONMENTS.  The model says the result of a history is a function
+// of (logits, parameters, generator state) only; so the same history on fresh samplers under GOMAXPROCS =
+// 1, 2, 7, 16 must give the same id sequence AND the same bit patterns of every stage output.
+func c18EnvRepro(out *zzverif.Out, h *c18Hist, line string, fix bool) {
+	if h.seed == -1 {
+		return
+	}
+	old := runtime.GOMAXPROCS(0)
+	defer runtime.GOMAXPROCS(old)
+	observe := func() string {
+		s := NewSampler(h.temp, h.k, h.p, h.mp, h.seed, nil)
+		var b strings.Builder
+		for _, v := range h.calls {
+			res := c18CallSample(&s, append([]float32(nil), v...))
+			b.WriteString(res.head)
+			// the stage outputs of the real transforms, in the order of `sample`
+			c := &c18Case{temp: h.temp, p: h.p, mp: h.mp, k: h.k, logits: v}
+			sp := c18Spec(c)
+			if len(v) > 0 && sp.temperature != 0 {
+				W := topK(c18Toks(v), sp.topK)
+				fmt.Fprintf(&b, " topk=%08x/%08x", c18HashIds(W), c18HashVals(c18Vals(W)))
+				if !fix || c18Shift(W) {
+					temperature(W, sp.temperature)
+					fmt.Fprintf(&b, " temp=%08x", c18HashVals(c18Vals(W)))
+					softmax(W)
+					fmt.Fprintf(&b, " softmax=%08x", c18HashVals(c18Vals(W)))
+					W = topP(W, sp.topP)
+					if len(W) > 0 {
+						W = minP(W, sp.minP)
+					}
+					fmt.Fprintf(&b, " kept=%d", len(W))
+				}
+			}
+			b.WriteString(";")
+		}
+		return b.String()
+	}
+	procs := []int{1, 2, 7, 16}
+	var first string
+	out.Count("env_repro_histories")
+	for i, p := range procs {
+		runtime.GOMAXPROCS(p)
+		got := observe()
+		if i == 0 {
+			first = got
+			continue
+		}
+		if got != first {
+			a, b := strings.Split(first, ";"), strings.Split(got, ";")
+			d := "?"
+			for j := range a {
+				if j < len(b) && a[j] != b[j] {
+					d = fmt.Sprintf("call %d: GOMAXPROCS=%d -> %s | GOMAXPROCS=%d -> %s", j, procs[0], a[j], p, b[j])
+					break
+				}
+			}
+			out.L2("env-dependent", line, "same seed, logits and parameters, fresh samplers: "+d)
+			return
+		}
+	}
+}
+
+// large vocabularies: generated from a compact line   L <tempbits> <k> <pbits> <minpbits> <seed> <n> <vecseed> <ncalls>
+func c18LargeHist(temp float32, k int, p, mp float32, seed, n int, vseed uint64, ncalls int) *c18Hist {
+	h := &c18Hist{temp: temp, k: k, p: p, mp: mp, seed: seed}
+	h.label = fmt.Sprintf("L %s %d %s %s %d %d %d %d", c18Bits(temp), k, c18Bits(p), c18Bits(mp), seed, n, vseed, ncalls)
+	r := zzverif.NewRng(vseed)
+	for j := 0; j < ncalls; j++ {
+		v := make([]float32, n)
+		switch r.Intn(3) {
+		case 0: // flat-ish: every token contributes to the normaliser
+			for i := range v {
+				v[i] = c18RandFloat(r, -2, 2)
+			}
+		case 1: // realistic spread with a masked part
+			for i := range v {
+				v[i] = c18RandFloat(r, -12, 6)
+				if r.Chance(1, 50) {
+					v[i] = c18NegInf
+				}
+			}
+		default: // a few likely tokens over a flat tail
+			for i := range v {
+				v[i] = c18RandFloat(r, -1, 1)
+			}
+			for t := 0; t < 5; t++ {
+				v[r.Intn(n)] = c18RandFloat(r, 3, 8)
+			}
+		}
+		h.calls = append(h.calls, v)
+	}
+	return h
+}
+
+func c18ParseLarge(line string) *c18Hist {
+	f := strings.Fields(line)
+	if len(f) < 9 || f[0] != "L" {
+		return nil
+	}
+	k, _ := strconv.Atoi(f[2])
+	seed, _ := strconv.Atoi(f[5])
+	n, _ := strconv.Atoi(f[6])
+	vseed, _ := strconv.ParseUint(f[7], 10, 64)
+	nc, _ := strconv.Atoi(f[8])
+	if n <= 0 || n > 1<<20 || nc <= 0 || nc > 16 {
+		return nil
+	}
+	return c18LargeHist(c18ParseF(f[1]), k, c18ParseF(f[3]), c18ParseF(f[4]), seed, n, vseed, nc)
+}
+
+func c18LargeRuns(out *zzverif.Out, r *zzverif.Rng, fix bool, rounds int) {
+	for round := 0; round < rounds; round++ {
+		for _, n := range []int{16383, 16384, 16385, 32000, 128256} {
+			k := zzverif.Pick(r, []int{0, 0, -1, n, n + 1, 40, n - 1})
+			p := zzverif.Pick(r, []float32{1, 1, 0.95, 0.9})
+			mp := zzverif.Pick(r, []float32{0, 0, 0.01})
+			temp := zzverif.Pick(r, []float32{1, 1, 0.7, 1.5})
+			nc := 2
+			if n > 100000 {
+				nc = 1 + round%2
+			}
+			out.Count(fmt.Sprintf("large_vocab_%d", n))
+			c18RunHist(out, c18LargeHist(temp, k, p, mp, r.Range(1, 1<<30), n, r.U64()>>1, nc), fix)
+		}
+	}
 }
 
 // c18FixMask: which repairs the tree under test contains (VERIF_C18_FIX): bit 0 = F18 max-shift,
@@ -998,9 +1148,13 @@ type c18Hist struct {
 	k, seed     int
 	calls       [][]float32
 	weird       bool
+	label       string // compact replay line of a generated large-vocabulary history (`L ...`)
 }
 
 func (h *c18Hist) line() string {
+	if h.label != "" {
+		return h.label
+	}
 	var b strings.Builder
 	fmt.Fprintf(&b, "H %s %d %s %s %d %d", c18Bits(h.temp), h.k, c18Bits(h.p), c18Bits(h.mp), h.seed, len(h.calls))
 	for _, v := range h.calls {
@@ -1121,6 +1275,16 @@ func c18GenHist(r *zzverif.Rng, out *zzverif.Out) *c18Hist {
 // c18RunHist: one real Sampler, all calls on it; the generator state is threaded by the model's rule.
 func c18RunHist(out *zzverif.Out, h *c18Hist, fix bool) {
 	line := h.line()
+	c18HistSeq++
+	large := false
+	for _, v := range h.calls {
+		if len(v) > 5000 {
+			large = true
+		}
+	}
+	if large {
+		out.Count("large_vocab_histories")
+	}
 	out.Count("cases")
 	out.Count(fmt.Sprintf("hist_len_%d", min(len(h.calls), 5)))
 	realS := NewSampler(h.temp, h.k, h.p, h.mp, h.seed, nil)
@@ -1145,7 +1309,7 @@ func c18RunHist(out *zzverif.Out, h *c18Hist, fix bool) {
 	anyPre := false
 	for j, logits := range h.calls {
 		c := &c18Case{temp: h.temp, p: h.p, mp: h.mp, k: h.k, seed: h.seed, logits: logits, weird: h.weird}
-		consumed, pre, _, _ := c18RunCall(out, c, fix, &realS, stream[draws], line, j, j == 0 || j == len(h.calls)-1)
+		consumed, pre, _, _ := c18RunCall(out, c, fix, &realS, stream[draws], line, j, !large && (j == 0 || j == len(h.calls)-1))
 		if consumed {
 			draws++
 		}
@@ -1169,7 +1333,10 @@ func c18RunHist(out *zzverif.Out, h *c18Hist, fix bool) {
 	if strings.Join(a, ";") != strings.Join(b, ";") {
 		out.L2("not-reproducible", line, fmt.Sprintf("same seed, same inputs: %s vs %s", strings.Join(a, ";"), strings.Join(b, ";")))
 	}
-	if !anyPre && !h.weird {
+	if large || c18HistSeq%6 == 0 {
+		c18EnvRepro(out, h, line, fix)
+	}
+	if !anyPre && !h.weird && !large {
 		fixFlag := c18FixMask()
 		var op strings.Builder
 		fmt.Fprintf(&op, "hist %d %s %d %s %s %d %d", fixFlag, c18Bits(h.temp), h.k, c18Bits(h.p), c18Bits(h.mp), h.seed, len(h.calls))
@@ -1291,8 +1458,12 @@ func TestVerifC18(t *testing.T) {
 		}
 		h := c18ParseHist(strings.TrimSpace(string(b)))
 		if h == nil {
+			h = c18ParseLarge(strings.TrimSpace(string(b)))
+		}
+		if h == nil {
 			t.Fatalf("bad replay line")
 		}
+		c18HistSeq = -1 // the replayed history always goes through the cross-environment monitor
 		c18RunHist(out, h, fix)
 		return
 	}
@@ -1318,6 +1489,7 @@ func TestVerifC18(t *testing.T) {
 		c18RunHist(out, &c18Hist{temp: 1, k: 0, p: 1, mp: 0, seed: sd, calls: [][]float32{flat, flat, flat}}, fix)
 	}
 	c18GrammarRuns(out, root.Fork(), fix, zzverif.EnvInt("VERIF_NG", 200))
+	c18LargeRuns(out, root.Fork(), fix, zzverif.EnvInt("VERIF_NL", 1))
 	for i := 0; i < n; i++ {
 		r := root.Fork()
 		c18RunHist(out, c18GenHist(r, out), fix)
